@@ -1113,7 +1113,16 @@ impl Planner {
 
         // Extract property equality conditions from the predicate
         // Handles both simple (n.prop = val) and compound (n.a = 1 AND n.b = 2)
-        let conditions = self.extract_equality_conditions(&filter.predicate, &scan_variable);
+        //
+        // A lookup finds the stored values that are identical to the key, while the
+        // predicate (re-applied below) compares numbers across Int64/Float64 and with
+        // a tolerance. Only conditions for which a few lookups cover everything the
+        // predicate accepts take part; the others are left to the re-applied predicate.
+        let conditions: Vec<(String, Vec<Value>)> = self
+            .extract_equality_conditions(&filter.predicate, &scan_variable)
+            .into_iter()
+            .filter_map(|(prop, val)| Self::lookup_keys_for_equality(&val).map(|keys| (prop, keys)))
+            .collect();
 
         if conditions.is_empty() {
             return Ok(None);
@@ -1128,12 +1137,21 @@ impl Planner {
             return Ok(None);
         }
 
-        // Use the optimized batch lookup for multiple conditions
-        let conditions_ref: Vec<(&str, Value)> = conditions
-            .iter()
-            .map(|(p, v)| (p.as_str(), v.clone()))
-            .collect();
-        let mut matching_nodes = self.store.find_nodes_by_properties(&conditions_ref);
+        // Candidates: for every condition the union of its lookups, intersected
+        // across the conditions
+        let mut matching: Option<std::collections::HashSet<grafeo_common::types::NodeId>> = None;
+        for (prop, keys) in &conditions {
+            let mut found: std::collections::HashSet<grafeo_common::types::NodeId> = std::collections::HashSet::new();
+            for key in keys {
+                found.extend(self.store.find_nodes_by_property(prop, key));
+            }
+            matching = Some(match matching {
+                None => found,
+                Some(prev) => prev.intersection(&found).copied().collect(),
+            });
+        }
+        let mut matching_nodes: Vec<grafeo_common::types::NodeId> = matching.unwrap_or_default().into_iter().collect();
+        matching_nodes.sort_unstable();
 
         // If there's a label filter, also filter by label
         if let Some(label) = &scan_label {
@@ -1160,6 +1178,31 @@ impl Planner {
         let operator = Box::new(FilterOperator::new(node_list_op, Box::new(predicate)));
 
         Ok(Some((operator, columns)))
+    }
+
+    /// The stored values an equality with `literal` accepts, as lookup keys - or None
+    /// when no small set of keys covers them.
+    ///
+    /// Strings and booleans equal only themselves. An integer n also equals the
+    /// float n; a float f also equals the integer f when it is one. Numbers are
+    /// compared with a tolerance of f64::EPSILON, which reaches neighbouring floats
+    /// only below magnitude 2, and integers above 2^53 share their float image:
+    /// such literals are not looked up.
+    fn lookup_keys_for_equality(literal: &Value) -> Option<Vec<Value>> {
+        match literal {
+            Value::String(_) | Value::Bool(_) => Some(vec![literal.clone()]),
+            Value::Int64(n) if n.unsigned_abs() >= 2 => {
+                Some(vec![Value::Int64(*n), Value::Float64(*n as f64)])
+            }
+            Value::Float64(f) if f.abs() >= 2.0 && f.abs() < 9_007_199_254_740_992.0 => {
+                let mut keys = vec![Value::Float64(*f)];
+                if f.fract() == 0.0 {
+                    keys.push(Value::Int64(*f as i64));
+                }
+                Some(keys)
+            }
+            _ => None,
+        }
     }
 
     /// Extracts equality conditions (property = literal) from a predicate.
